@@ -305,3 +305,49 @@ def r5(ctx, chk):
     # R6: awareness
     from .c12 import awareness_table
     awareness_table(ctx, chk, rule, only=["dateparser.date_parser:DateParser.parse"])
+
+
+def thorough(ctx, chk):
+    """more bodies and positions for the same first-match rule (end of string, after strip_braces of a parenthesised
+    abbreviation, ISO body, time-only body)"""
+    rule = "C11.R1t"
+    tl, entries, parts = tz_model(ctx, rule)
+    compiled = [(name, regex.compile(pat, regex.IGNORECASE), secs) for name, pat, secs in entries]
+    pre = regex.compile("|".join(parts), regex.IGNORECASE)
+    strip = regex.compile(r"[{}()<>\[\]]+")
+
+    def first(s):
+        for name, rx_, secs in compiled:
+            if rx_.search(s):
+                return name, secs
+        return None
+    bodies = ["2015-03-12T10:30:00", "10:30", "Thu, 12 Mar 2015 10:30:00", "12.03.2015 10:30:15.123456"]
+    n = bad = 0
+    counts = {}
+    for info in tl:
+        for name, secs in info["timezones"]:
+            counts.setdefault(name, set()).add(secs)
+    for info in tl:
+        for name, secs in info["timezones"]:
+            sp = _spellings(name)
+            if sp is None:
+                if len(counts[name]) != 1 or not stdre.match(r"^[A-Za-z]+$", name):
+                    continue
+                forms = [name, name.lower(), "(%s)" % name]
+            else:
+                forms = sp
+            for b in bodies:
+                for f in forms:
+                    probe = strip.sub("", b + " " + f)
+                    got = first(probe)
+                    n += 1
+                    ok = got is not None and got[1] == secs and bool(pre.search(probe))
+                    if not ok:
+                        bad += 1
+                        chk.ob(rule, "%r resolves to %ds" % (probe, secs), False, "first matching entry %r" % (got,),
+                               key={"entry": name, "spelling": f, "body": b}, file="dateparser/timezones.py",
+                               function="timezone_info_list", line=None)
+    chk.instances[rule] = n
+    chk.obligations.append((rule, "%d body x spelling probes, %d mismatches" % (n, bad), bad == 0, ""))
+    chk.nontrivial.add((rule, "probes"))
+    chk.extra["thorough_probes"] = n
